@@ -476,6 +476,14 @@ pub fn repo_level(seed: u64) -> String {
 
 // ------------------------------------------------------------------------------------------ generator
 
+/// the first size >= `n` that no version (written or planted with random bytes) of file `(t, id)` had so far in this history
+fn unused_size(used: &[(u8, String, usize)], t: u8, id: &str, mut n: usize) -> usize {
+    while used.iter().any(|(a, b, l)| *a == t && b == id && *l == n) {
+        n += 1;
+    }
+    n
+}
+
 pub fn generate(thorough: bool, rng: &mut Rng, ops: &mut Vec<String>, stats: &mut Stats) {
     // two handles strictly alternating: every operation of the cached handle is preceded by a change made through the
     // uncached handle (a new file, a removal, an overwrite with another size) of a type the cache keeps, so the cache
@@ -580,6 +588,7 @@ pub fn generate(thorough: bool, rng: &mut Rng, ops: &mut Vec<String>, stats: &mu
         let n = if thorough { rng.range(4, 45) } else { rng.range(3, 25) } as usize;
         let mut pool: Vec<String> = Vec::new();
         let mut written: Vec<(u8, String, usize)> = Vec::new();
+        let mut sizes_used: Vec<(u8, String, usize)> = Vec::new();
         let mut steps: Vec<String> = Vec::new();
         let dirs = ["config", "index", "keys", "snapshots", "data"];
         for _ in 0..n {
@@ -614,24 +623,20 @@ pub fn generate(thorough: bool, rng: &mut Rng, ops: &mut Vec<String>, stats: &mu
                         // an overwrite always changes the size: same-size different content under one id is outside
                         // the statement (ids are content hashes)
                         stats.hit("op.overwrite");
-                        let (_, oid, olen) = rng.pick(&written).clone();
-                        if len == olen {
-                            len += 1;
-                        }
+                        let (_, oid, _) = rng.pick(&written).clone();
                         oid
                     } else if !pool.is_empty() && rng.chance(1, 6) {
                         // an id seen before (read / removed / planted, e.g. a directory at its entry path) but possibly never written
                         stats.hit("op.write.pool-id");
-                        let pid = rng.pick(&pool).clone();
-                        if let Some((_, _, olen)) = written.iter().find(|(a, b, _)| *a == t && *b == pid) {
-                            if len == *olen {
-                                len += 1;
-                            }
-                        }
-                        pid
+                        rng.pick(&pool).clone()
                     } else {
                         fresh(rng, &mut pool)
                     };
+                    // a size never used for this key before in the history — the cache may still hold ANY earlier version (written
+                    // through the cached handle, then replaced / removed and re-created through the uncached one), and an
+                    // earlier version of the same size with other bytes is outside the statement
+                    len = unused_size(&sizes_used, t, &id, len);
+                    sizes_used.push((t, id.clone(), len));
                     let data = if len > 64 { format!("g{}.{len}", rng.below(1 << 30)) } else { hex(&rng.bytes(len)) };
                     stats.hit(format!("op.write.{h}"));
                     written.retain(|(a, b, _)| !(*a == t && *b == id));
@@ -770,16 +775,23 @@ pub fn generate(thorough: bool, rng: &mut Rng, ops: &mut Vec<String>, stats: &mu
                         },
                         0 => {
                             stats.hit("plant.truncated");
-                            steps.push(format!("s,{proper},g{}.{}", rng.below(1 << 30), len / 2));
+                            // (planted bytes are random: no later version of that file may have their size — see `sizes_used`)
+                            let n = unused_size(&sizes_used, t2, &id, len / 2);
+                            sizes_used.push((t2, id.clone(), n));
+                            steps.push(format!("s,{proper},g{}.{n}", rng.below(1 << 30)));
                         }
                         1 => {
                             stats.hit("plant.longer");
-                            steps.push(format!("s,{proper},g{}.{}", rng.below(1 << 30), len + 1 + rng.below(9) as usize));
+                            let n = unused_size(&sizes_used, t2, &id, len + 1 + rng.below(9) as usize);
+                            sizes_used.push((t2, id.clone(), n));
+                            steps.push(format!("s,{proper},g{}.{n}", rng.below(1 << 30)));
                         }
                         2 => {
                             stats.hit("plant.stale");
                             let id = fresh(rng, &mut pool);
-                            steps.push(format!("s,{dir}/{}/{id},g{}.{}", &id[..2], rng.below(1 << 30), rng.below(300)));
+                            let n = rng.below(300) as usize;
+                            sizes_used.push((t2, id.clone(), n));
+                            steps.push(format!("s,{dir}/{}/{id},g{}.{n}", &id[..2], rng.below(1 << 30)));
                         }
                         3 => {
                             stats.hit("plant.tmp-name");
